@@ -306,6 +306,7 @@ Proof.
   destruct dbl.
   - destruct (pf b) as [bits|]; [|apply Rep_rn]. vis_step. apply Rep_rn.
   - destruct b as [|c r]; [apply Rep_rn_none|]. cbv zeta.
+    destruct (if (c =? 43) || (c =? 45) then r else c :: r) as [|d0 dr]; [apply Rep_rn|].
     destruct (parse_uint _ 0) as [u|]; [|apply Rep_rn].
     destruct (negb (c =? 45) && (u >? 9223372036854775807)); [vis_step; apply Rep_rn|].
     destruct ((c =? 45) && (u >? 9223372036854775808)); [apply Rep_rn|].
@@ -439,7 +440,7 @@ Proof.
   intros p. unfold jfinalize, ofin.
   destruct (jp_cur p =? jNumber).
   - set (q := jset_lit (jpop p) []).
-    apply (Rep_bind _ _ _ (fun _ _ => jset_lit p [])
+    apply (Rep_bind _ _ _ (fun _ _ => p)
              (fun _ s => if (zlen (jp_states q) >? 0) && negb (jp_cur q =? jStart)
                          then Some (q, s, jeGeneric) else Some (q, s, jpnil))
              _ (report_number_rep (jp_lit p) (jp_isdbl p))).
@@ -742,6 +743,7 @@ Proof.
   destruct dbl.
   - destruct (pf b); [apply G|apply G0].
   - destruct b as [|c r]; [discriminate|].
+    destruct (if (c =? 43) || (c =? 45) then r else c :: r) as [|d0 dr]; [apply G0|].
     destruct (parse_uint _ _); [|apply G0].
     destruct (_ && _); [apply G|]. destruct (_ && _); [apply G0|apply G].
 Qed.
@@ -2983,6 +2985,7 @@ Proof.
   destruct dbl.
   - destruct (pf b); [apply G|apply G0].
   - destruct b as [|c r]; [discriminate|].
+    destruct (if (c =? 43) || (c =? 45) then r else c :: r) as [|d0 dr]; [apply G0|].
     destruct (parse_uint _ _); [|apply G0].
     destruct (_ && _); [apply G|]. destruct (_ && _); [apply G0|apply G].
 Qed.
